@@ -317,6 +317,9 @@ func (s *Session) Do(c Cmd) error {
 	d := s.H.D
 	var res am.Result
 	var v *View
+	// did the ScrollToTx handler run during this command? (a jump is only judged
+	// when the debugger machine executed it)
+	scrollTick := d.Mach.Tick(ss.ScrollToTx)
 	err, hung := s.guarded(func() error {
 		t0 := time.Now()
 		switch c.Op {
@@ -388,6 +391,7 @@ func (s *Session) Do(c Cmd) error {
 			return fmt.Errorf("client %s vanished", s.id)
 		}
 		line["txidx"] = txidx
+		line["ran"] = d.Mach.Tick(ss.ScrollToTx) > scrollTick
 	}
 	s.Lines = append(s.Lines, line)
 	return nil
